@@ -477,8 +477,8 @@ def base_rules(F, rep, I):
     # the element count travels from decode_static to decode_dynamic as the vector's capacity: both allocations must be made
     # with exactly the decoded length, and decode_dynamic must decode `capacity()` elements
     lens = [describe(fd, args[0], depth=14) for i, c, args, *_ in calls(fd) if callee_matches(c, r"TryInto<.*>>?::try_into$|TryFrom<.*>>?::try_from$")]
-    allocs = [(callee_name(c).rsplit("::", 1)[-1], describe(fd, args[-1], depth=14)) for i, c, args, *_ in calls(fd) if callee_matches(c, r"Vec::<T>::with_capacity$|vec::from_elem$")]
-    okc = len(lens) == 1 and "call:decode(arg:buffer)" in lens[0] and len(allocs) == 2 and all(re.match(r"^call:branch\(call:map_err\(call:try_into\(", a[1]) for a in allocs) and len({a[1] for a in allocs}) == 1
+    allocs = [(callee_name(c).rsplit("::", 1)[-1], describe(fd, args[-1], depth=24)) for i, c, args, *_ in calls(fd) if callee_matches(c, r"Vec::<T>::with_capacity$|vec::from_elem$")]
+    okc = len(lens) == 1 and "call:decode(arg:buffer)" in lens[0] and len(allocs) == 2 and all(re.search(r"call:try_(into|from)\(.*call:decode\(arg:buffer\)", a[1]) for a in allocs) and len({a[1] for a in allocs}) == 1
     fdd = I["std::vec::Vec<T>"]["Deserialize"]["decode_dynamic"][1]
     rng = [[describe(fdd, x, depth=8) for x in rv[3]] for i, j, p, rv, line in assignments(fdd) if rv[0] == "agg" and rv[1].endswith("ops::range::Range")]
     rep.check(okc and rng == [["const:0", "call:capacity(arg:self)"]], "BASE-align", "Vec:element-count=length-word(via capacity)", where,
@@ -515,6 +515,20 @@ def policies(F, rep, I):
             from fvlib.core import bool_consumers
             bc = bool_consumers(f, ct[0])
             ok = len(bc) == 1 and io[0] in cfg.reachable_incl(bc[0][1]) - cfg.reachable_incl(bc[0][2]) or (len(bc) == 1 and io[0] in cfg.reachable_incl(bc[0][1]) and not cfg.dominates(bc[0][2], io[0]))
+        if not ok and len(al) == 1:
+            # the same loop as an iterator chain: zip(.., all()).filter(|..| bits.contains(bit)).try_for_each(|..| value.encode/decode)
+            fname = d[tr][m][0]
+            cls = {cn: cf for cn, cf in F.find("^" + re.escape(fname) + r"::\{closure#\d+\}$", ["fuel_tx"], required=False)}
+            filt = [cn for cn, cf in cls.items() if any(callee_matches(c, r"PoliciesBits>::contains$") and "bits" in describe(cf, args[0], depth=8) for i, c, args, *_ in calls(cf))]
+            body = [cn for cn, cf in cls.items() if any(callee_matches(c, r"Serialize::encode$|Deserialize::decode$|::encode$|::decode$") and c.get("self") in ("u64", None) for i, c, args, *_ in calls(cf))]
+            chain_ok = False
+            if len(filt) == 1 and len(body) == 1:
+                for i, c, args, *_ in calls(f):
+                    if callee_matches(c, r"Iterator::(try_for_each|for_each)$|Iterator>?::(try_for_each|for_each)$") and len(args) == 2:
+                        recv = describe(f, args[0], depth=30)
+                        if body[0].rsplit("::", 1)[-1] in describe(f, args[1], depth=4) and "call:filter(" in recv and "call:all(" in recv and filt[0].rsplit("::", 1)[-1] in recv:
+                            chain_ok = True
+            ok = chain_ok
         rep.check(ok, "POLICIES", "%s:for-bit-in-all()-if-contains(bit)" % m, where, "all() %s contains %s value io in loop %s" % (al, ct, io))
     f = d["Serialize"]["encode_static"][1]
     es = [describe(f, args[0], depth=8) for i, c, args, *_ in calls(f) if callee_matches(c, r"::encode_static$|Serialize::encode$")]
